@@ -2,7 +2,7 @@
 """usage: try_scratch.py <patch.diff> <ID> [<ID>...] -- run quick checks on a scratch copy of /repo with the patch applied
 (never touches /repo)."""
 import sys
-sys.path.insert(0, '/verif')
+import os; sys.path.insert(0, os.path.dirname(os.path.dirname(os.path.abspath(__file__))))
 from cqverif import scratch
 p, ids = sys.argv[1], sys.argv[2:]
 r = scratch.with_change('patch', p, ids)
